@@ -326,6 +326,7 @@ class Runner:
             outp = os.path.join(d, 'result.json')
             cmd = self.cbmc_cmd(job, gb)
             job._cmd = ' '.join(cmd)
+            if os.environ.get('VERIF_JOB_TIMEOUT'): job.timeout = min(job.timeout, int(os.environ['VERIF_JOB_TIMEOUT']))   # probing aid
             with MEM_BUDGET.take(job.mem_gb):
                 ts = time.time()
                 rc, o, e = sh(cmd, timeout=job.timeout, stdout_path=outp, mem_kb=int(job.mem_gb * 1.4 * 1048576))
